@@ -39,7 +39,7 @@ def _pick(ls, k=2):
     return sorted(set(ls[:1] + ls[-1:])) if k == 2 else ls
 
 
-API_CODES = sorted({k.split("|")[1] for k in CODE_API_MAP})
+API_CODES = sorted({k.split("|")[1] for k in CODE_API_MAP} | {"0005", "000C"})  # + the complex-context codes
 REQUESTS = [(str(code), verb) for code in CODES_SCHEMA for verb in ("RQ", " W") if _lengths(code, verb)]
 CASES = [(code, verb, n) for code, verb in REQUESTS for n in _lengths(code, verb)]
 REPLY_VERB = {"RQ": "RP", " W": " I"}
@@ -182,6 +182,14 @@ def reply_is_recognised(code, verb, n, src_kind):
     null_entry = code == "0418" and rp == NULL_0418
     if not null_entry:
         check(hdr.value == cmd.rx_header, "the proper reply has the header the command expects")
+    # the reply may overtake the echo: WantEcho accepts it too
+    early = FakeContext(g)
+    early._state.cmd_sent(cmd, is_retry=False)
+    if not null_entry:
+        n0 = len(early.calls)
+        er = outcome(early._state.pkt_rcvd, reply)
+        check(er.ok and len(early.calls) == n0 + 1 and early.calls[-1][0] is fsm.IsInIdle and early.calls[-1][1] is reply,
+              "the proper reply arriving before the echo completes the send with that packet")
     # through the FSM: echo first, then the reply
     ctx = FakeContext(g)
     ctx._state.cmd_sent(cmd, is_retry=False)
